@@ -9,6 +9,7 @@ use crate::parser::model_transformer::TransformError;
 use crate::parser::model_transformer::VariableKind;
 use crate::primitives::PrimitiveKind;
 use crate::traits::ToLatex;
+use crate::runtime_builtin::std_fn_to_string;
 use crate::type_checker::type_checker_context::{
     FunctionContext, TypeCheckable, TypeCheckerContext, WithType,
 };
@@ -172,6 +173,12 @@ impl IterableSet {
 
 impl fmt::Display for IterableSet {
     fn fmt(&self, f: &mut fmt::Formatter<'_>) -> fmt::Result {
+        //a range call with a known inclusiveness is written a..b, the form it was read from
+        if let PreExp::FunctionCall(_, fun) = &*self.iterator
+            && let Some(range) = std_fn_to_string(fun)
+        {
+            return write!(f, "{} in {}", self.var, range);
+        }
         write!(f, "{} in {}", self.var, *self.iterator)
     }
 }
